@@ -1,6 +1,7 @@
 package main
 
 import (
+	"go/token"
 	"fmt"
 	"go/types"
 	"strings"
@@ -266,6 +267,21 @@ func (c *Ctx) checkFields(r *Report, rule string, f *ssa.Function, obj ssa.Value
 		}
 		allOK := true
 		var how []string
+		// a value produced by an unexported helper of the same package is judged by what the helper returns
+		// (one case per return statement), not rejected as "comes from a call"
+		var expanded []valueCase
+		for _, w := range ws {
+			if ok, _ := sp.Accept(w); ok {
+				expanded = append(expanded, w)
+				continue
+			}
+			if sub := c.expandHelperCall(w, f, 0); sub != nil {
+				expanded = append(expanded, sub...)
+			} else {
+				expanded = append(expanded, w)
+			}
+		}
+		ws = expanded
 		for _, w := range ws {
 			ok, why := sp.Accept(w)
 			if !ok {
@@ -307,4 +323,105 @@ func acceptField(pkgpath, tname string, path ...string) func(vc valueCase) (bool
 		}
 		return false, "expected incoming " + tname + "." + strings.Join(path, ".") + " and nothing else"
 	}
+}
+
+// expandHelperCall: vc's origin is result #k of a call to an unexported,
+// lock-free function g of the same package as f. Returns one value case per
+// (return statement of g, origin of its k-th result), carrying the guards of
+// that return statement; return statements that the caller's own guards
+// exclude (the caller goes on only when another result of the call is nil /
+// true, and this return hands back a fresh error / false there) are dropped.
+func (c *Ctx) expandHelperCall(vc valueCase, f *ssa.Function, depth int) []valueCase {
+	o := vc.O
+	if o.Kind != "call" || depth > 2 {
+		return nil
+	}
+	call, ok := o.Val.(*ssa.Call)
+	if !ok {
+		return nil
+	}
+	g := staticCallee(&call.Call)
+	if g == nil || g.Blocks == nil || g.Object() == nil || g.Object().Exported() || fnPkgPath(g) != fnPkgPath(f) || countInstrs(g) > 120 || takesLock(g) {
+		return nil
+	}
+	// what the caller requires of the call's other results on this path
+	type req struct {
+		idx   int
+		isNil bool // result must be nil (true) / non-nil (false); for booleans: must be false / true
+	}
+	var reqs []req
+	for _, gd := range vc.Guards {
+		cond, truth := gd.Cond, gd.Truth
+		if ex, ok := cond.(*ssa.Extract); ok && ex.Tuple == ssa.Value(call) {
+			reqs = append(reqs, req{ex.Index, !truth}) // boolean result: required true => "non-nil"
+			continue
+		}
+		x, y, op, isCmp := cmpGuard(gd)
+		if !isCmp || !isNilConst(y) {
+			continue
+		}
+		if ex, ok := x.(*ssa.Extract); ok && ex.Tuple == ssa.Value(call) {
+			reqs = append(reqs, req{ex.Index, op == token.EQL})
+		}
+	}
+	var out []valueCase
+	for _, b := range g.Blocks {
+		ret, ok := b.Instrs[len(b.Instrs)-1].(*ssa.Return)
+		if !ok || o.ResIdx >= len(ret.Results) {
+			continue
+		}
+		excluded := false
+		for _, rq := range reqs {
+			if rq.idx >= len(ret.Results) || rq.idx == o.ResIdx {
+				continue
+			}
+			rv := ret.Results[rq.idx]
+			switch {
+			case isNilConst(rv):
+				if !rq.isNil {
+					excluded = true
+				}
+			default:
+				if bv, isB := constBool(rv); isB {
+					if bv == rq.isNil { // required true (isNil=false) but returns false, or the reverse
+						excluded = true
+					}
+				} else if _, isCall := rv.(*ssa.Call); isCall || isMakeInterfaceOfAlloc(rv) {
+					// a freshly built error value
+					if rq.isNil {
+						excluded = true
+					}
+				}
+			}
+		}
+		if excluded {
+			continue
+		}
+		t := &tracer{c: c, visited: map[ssa.Value]bool{}, inline: true}
+		for _, ro := range dedupOrigins(t.trace(ret.Results[o.ResIdx], append([]string{}, o.Path...))) {
+			gs := append(append([]Guard{}, ro.Guards...), guardsOf(b)...)
+			nv := valueCase{ro, gs, vc.Store}
+			nv.O.ViaCall = append(append([]string{}, ro.ViaCall...), fnKey(g))
+			if ro.Kind == "call" {
+				if sub := c.expandHelperCall(nv, g, depth+1); sub != nil {
+					out = append(out, sub...)
+					continue
+				}
+			}
+			out = append(out, nv)
+		}
+	}
+	return out
+}
+
+func isMakeInterfaceOfAlloc(v ssa.Value) bool {
+	mi, ok := v.(*ssa.MakeInterface)
+	if !ok {
+		return false
+	}
+	switch mi.X.(type) {
+	case *ssa.Alloc, *ssa.Call:
+		return true
+	}
+	return false
 }
